@@ -216,7 +216,7 @@ where
                 SignalTarget::All => None,
                 SignalTarget::AllExcept(i) => Some(*i),
             }),
-            counter_zeroed_once: self.counter_zeroed_once,
+            counter_zeroed_once: self.counter_zeroed_once.clone(),
             framework_start: self.framework_start,
         }
     }
